@@ -39,6 +39,9 @@ type hookCase struct {
 	// Extra: this many further bytes follow the reply on the transport (an oversized reply: the call ends with the too-long error, the
 	// hooks must still see every read exactly). Deliver/Cuts then count over reply+extra.
 	Extra int `json:"extra,omitempty"`
+	// EchoFirst: the line echoes the request (2-wire RS485, some gateways): the bytes of the request arrive in front of the reply. Whatever
+	// the client makes of that, the hooks still see every read and, if the parser is entered, all bytes read.
+	EchoFirst bool `json:"echo_first,omitempty"`
 	// Prior: an earlier call on the same client and the same hooks (success | ioerr); only the judged call's hook calls are compared
 	Prior string `json:"prior,omitempty"`
 	// PriorShape: the earlier call's request: "" same as Req | "short" (FC17, the shortest frame) | "long" (FC16 with 100 registers)
@@ -56,6 +59,9 @@ func scenario(c hookCase) (cli.Scenario, []byte, error) {
 	d := device.New(c.DevSeed)
 	d.ForceException = c.ExcCode
 	reply := d.Answer(f, q.Bytes())
+	if c.EchoFirst {
+		reply = append(append([]byte(nil), q.Bytes()...), reply...)
+	}
 	if c.Extra > 0 {
 		reply = append(reply, harness.Bytes(c.DevSeed^0xE, c.Extra)...)
 	}
@@ -138,6 +144,9 @@ func runHook(c hookCase) harness.Result {
 	labels := []string{"kind:" + c.Kind, fmt.Sprintf("fc%d", c.Req.FC), "terminal:" + c.Terminal}
 	if c.Prior != "" {
 		labels = append(labels, "after-earlier-call")
+	}
+	if c.EchoFirst {
+		labels = append(labels, "echoed-request-first")
 	}
 	if c.Extra > 0 {
 		labels = append(labels, "oversized-reply")
@@ -251,6 +260,7 @@ func genHook(t *rapid.T, kinds []string) hookCase {
 	if rapid.IntRange(0, 5).Draw(t, "exception") == 0 {
 		c.ExcCode = rapid.SampledFrom([]uint8{1, 2, 3, 4, 11}).Draw(t, "exc_code")
 	}
+	c.EchoFirst = rapid.IntRange(0, 7).Draw(t, "echo_first") == 0
 	_, reply, err := scenario(c)
 	if err != nil {
 		panic(err)
